@@ -27,9 +27,11 @@ class VerifBoomError(Exception):
 
 EXC = {'ValueError': ValueError, 'KeyError': KeyError, 'TypeError': TypeError, 'AssertionError': AssertionError,
        'RuntimeError': RuntimeError, 'Custom': VerifBoomError, 'LookupError': LookupError,
-       'StopIteration': StopIteration}
+       'StopIteration': StopIteration, 'PjrpcDeserializationError': exceptions.DeserializationError,
+       'PjrpcIdentityError': exceptions.IdentityError, 'PjrpcBaseError': exceptions.BaseError,
+       'ValidationError': __import__('pjrpc.server.validators', fromlist=['ValidationError']).ValidationError}
 EXC_NAMES = ['ValueError', 'KeyError', 'TypeError', 'AssertionError', 'RuntimeError', 'VerifBoomError',
-             'LookupError', 'StopIteration', 'Traceback']
+             'LookupError', 'StopIteration', 'Traceback', 'DeserializationError', 'IdentityError', 'BaseError', 'ValidationError']
 
 NOTJSON = {
     'empty': '', 'garbage': 'hello {', 'truncated': '{"jsonrpc": "2.0", "method": "ok", "id": 1',
